@@ -361,6 +361,7 @@ func c06Unit(r *vlib.Run, rng *vlib.Rng, u *harness.Unit, tm *typeMap) {
 				continue
 			}
 			getters, _ := gr["getters"].(map[string]interface{})
+			getters0, _ := gr["getters0"].(map[string]interface{})
 			isset2, _ := gr["isset2"].(map[string]interface{})
 			for _, f := range d.Fields {
 				where := fmt.Sprintf("config [%s] struct %s field %s %s (%s)", cfg, d.Name, f.Type, f.Name, d.EffReq(f))
@@ -403,6 +404,18 @@ func c06Unit(r *vlib.Run, rng *vlib.Rng, u *harness.Unit, tm *typeMap) {
 							r.Violation("C06/getter-of-unset-optional/"+f.Type.Shape(0), where+"\n getter on a fresh object: "+diff, c06Replay(u))
 						}
 						r.Sigf("getter-default/%s", f.Type.Shape(0))
+					}
+				}
+				// the same on the zero value new(T): nothing is set, so every getter answers with the default
+				// (containers only: an optional scalar with a default is a value field that counts as set whenever
+				// it differs from the default, which its zero value usually does)
+				if g, ok := getters0[fmt.Sprint(f.ID)]; ok && d.EffReq(f) == idl.ReqOptional && exp != nil && !idl.HasStructVal(exp) && (cat == "list" || cat == "set" || cat == "map") {
+					if gv, err := harness.FromJV(g, f.Type); err == nil {
+						r.Eval(1)
+						if diff := subsetDiff(exp, gv, f.Name); diff != "" {
+							r.Violation("C06/getter-of-unset-optional-on-zero-value/"+f.Type.Shape(0), where+"\n getter on new(T): "+diff, c06Replay(u))
+						}
+						r.Sigf("getter-default-on-zero-value/%s", f.Type.Shape(0))
 					}
 				}
 				// an optional field holding a value different from its default reports itself as set
